@@ -192,7 +192,7 @@ func init() {
 		Rule: "per run a timeline of 3-7 events: Intel publishes a new signed QE identity (masks all-zero / all-one / random; one identity fault in ~half the documents: masked bit differs, value bit outside the mask, MRSIGNER / ISVPRODID differ, field or mask length 0/3/5 resp. 0/15/17, MRSIGNER length 0/31/33; 1-5 levels with isvsvn at -2..+2 around the report's, any of the 7 statuses), or the QE report changes (ISVSVN, MISCSELECT, ATTRIBUTES, MRSIGNER, ISVPRODID, MRENCLAVE) and is re-signed by the PCK key with the hash binding kept valid; after each event verify.RawTdxQuote is compared with the transcription of the C07 sentence. " +
 			"distinct = (list length, first-match index or none, its status, deciding clause)",
 		Assumptions: []string{"hosted: decided by agreement with the reference model over seeded party states", "wrong field/mask lengths cannot 'equal once masked' and must be rejected"},
-		RealStub: map[string]string{"verify.RawTdxQuote": "real", "pcs JSON decoding": "real", "Intel CA, TCB signer, QE": "stub (world, timeline)", "reference model": "world.EvalQE"},
+		RealStub:    map[string]string{"verify.RawTdxQuote": "real", "pcs JSON decoding": "real", "Intel CA, TCB signer, QE": "stub (world, timeline)", "reference model": "world.EvalQE"},
 		Runs: func(tier string) int {
 			if tier == "thorough" {
 				return 60000
